@@ -318,6 +318,15 @@ fn part_expiry(c: &mut Ctx, args: &Args) {
                 if hu(expiry_height(bh(h))) != model_expiry(h) {
                     check_expiry_at(c, h);
                 }
+                // the trait form on the specified parameters is the same function
+                let t = hu(Defaults.canonical_expiry(bh(h)));
+                if t != model_expiry(h) || !Defaults.is_canonical_expiry(bh(model_expiry(h)), bh(h)) {
+                    c.viol(
+                        "PoolMigrationConstants::canonical_expiry:not-canonical",
+                        format!("canonical_expiry({h}) = {t}, canonical rolling expiry is {}", model_expiry(h)),
+                        json!({"op": "canonical_expiry", "height": h}),
+                    );
+                }
             }
             c.r.evals(200_000);
             c.r.count("expiry_heights_checked", 200_000);
